@@ -73,6 +73,31 @@ def _oracle_history(case, obs):
     ends = [p for p, (k, _, _) in enumerate(tr) if k in ("DoReturn", "DoRaise")]
     if len(ends) != 1 + len(case["again"]):
         return f"expected {1 + len(case['again'])} runs, saw {len(ends)}"
+    # every run of the history: a run that force-closes doers was stopped by its effective limit -- the one
+    # given to that run (0 meaning "no limit"), else the one kept from before -- at the first cycle end at or
+    # past start + |limit|; with no effective limit nothing is ever force-closed
+    eff, start = case["limit"], case["tyme"]
+    for r, e in enumerate(ends):
+        if r > 0:
+            a = case["again"][r - 1]
+            if a.get("limit") is not None:
+                eff = a["limit"]
+            start = a["tyme"] if a.get("tyme") is not None else sc.fl(tr[ends[r - 1]][2])
+        run = tr[(ends[r - 1] + 1) if r else 0:e]
+        cut = [i for k, i, _ in run if k == "Cease" and i in case["doers"]]
+        final = sc.fl(tr[e][2])
+        lim = abs(eff) if eff else None
+        if cut and lim is None:
+            return f"run {r + 1} has no time limit (limit {eff!r}) but force-closed doers {cut} at tyme {final}"
+        if cut:
+            t, prev = start, start
+            for _ in range(450):
+                if t >= final:
+                    break
+                prev, t = t, t + case["tock"]
+            if t != final or not (final >= start + lim) or (prev >= start + lim and prev != start):
+                return (f"run {r + 1} (start {start}, limit {lim}) force-closed doers {cut} at tyme {final}, not at the first "
+                        f"cycle end at or past {start + lim}")
     last = tr[(ends[-2] + 1) if len(ends) > 1 else 0:ends[-1]]
     ceased = [i for k, i, _ in last if k == "Cease"]
     dones = dict((i, d) for i, d in obs["dones"])
